@@ -12,7 +12,7 @@ def _one(case):
     from selftest_tool import verify_with_rewrite
     key, kind, old, new = case[:4]
     try:
-        r = verify_with_rewrite(key, old, new, count=(-1 if len(case) > 4 and case[4] == 'all' else 1))
+        r = verify_with_rewrite(key, old, new, count=(-1 if len(case) > 4 and case[4] == 'all' else 1), stop_at_first=(kind == 'break'))
     except Exception as e:  # noqa
         r = dict(error=f'{type(e).__name__}: {e}', failed=[], unknown=[])
     caught = bool(r.get('failed')) or bool(r.get('unknown')) or bool(r.get('error'))
@@ -26,7 +26,10 @@ def run(keys=None, jobs=16):
     cases = [c for c in CASES if keys is None or c[0] in keys]
     if not cases:
         return dict(cases=0, results=[])
-    with ProcessPoolExecutor(max_workers=min(jobs, len(cases))) as ex:
+    import multiprocessing
+    # a fresh process per case, as for the real verification (pyvc/runner.py): reproducible solver effort
+    with ProcessPoolExecutor(max_workers=min(jobs, len(cases)), max_tasks_per_child=1,
+                             mp_context=multiprocessing.get_context('forkserver')) as ex:
         res = list(ex.map(_one, cases))
     return dict(cases=len(cases), breaks=sum(1 for r in res if r['kind'] == 'break'),
                 breaks_caught=sum(1 for r in res if r['kind'] == 'break' and r['ok']),
